@@ -342,6 +342,7 @@ pub enum F {
     LSigDup,
     SharedSub,
     OddFileName,
+    Fifo,
     Misattributed,
     CallerJsonAlias,
     CallerEmpty,
@@ -387,6 +388,7 @@ pub fn fname(f: F) -> &'static str {
         F::LSigDup => "L-SIGDUP",
         F::SharedSub => "SHARED-SUBLAYOUT",
         F::OddFileName => "ODD-FILENAME",
+        F::Fifo => "FIFO",
         F::Misattributed => "MISATTRIBUTED",
         F::CallerJsonAlias => "CALLER-JSON-ALIAS",
         F::CallerEmpty => "CALLER-EMPTY",
@@ -1100,6 +1102,13 @@ pub fn apply_fault(t: &mut SupplyTrace, plan: &Plan, f: F, r: &mut Rng, prefer_s
                 doc.signers.push(x);
                 doc.ops.push(DocOp::SigShuffle(r.next()));
             }
+        }
+        F::Fifo => {
+            let paths = stored_paths(&t.root, &t.keys);
+            if paths.is_empty() {
+                return false;
+            }
+            t.file_faults.push(FileFault { path: r.pick(&paths).clone(), kind: FileFaultKind::Fifo });
         }
         F::ByteFlip | F::ByteTrunc | F::ByteOverwrite | F::Garbage | F::IsDir | F::Dangling | F::DupFile => {
             // byte positions inside documents that carry ECDSA / RSA-PSS signatures are not a function
